@@ -461,6 +461,23 @@ func checkC20(c *Ctx) Meta {
 				}
 			})
 		}
+		// decimal text is never trimmed with a cutset that mixes digits and the point: TrimRight(s, "0.")
+		// also eats the zeros of the integral part once the fraction is gone ("10.00000000" -> "1")
+		for fn := range c.AllFuncs {
+			if pkgOf(fn) != pkgAPI {
+				continue
+			}
+			fn := fn
+			allInstrs(fn, func(in ssa.Instruction) {
+				cl, ok := in.(*ssa.Call)
+				if !ok || !isCallAny(cl, "strings.TrimRight", "strings.TrimLeft", "strings.Trim") || len(cl.Call.Args) != 2 {
+					return
+				}
+				if cut, isS := constString(cl.Call.Args[1]); isS && strings.Contains(cut, ".") && strings.ContainsAny(cut, "0123456789") {
+					bad = append(bad, FuncName(fn)+" trims decimal text with the cutset "+fmt.Sprintf("%q", cut)+" at "+c.Pos(cl.Pos()))
+				}
+			})
+		}
 		sort.Strings(bad)
 		if len(bad) > 0 {
 			c.Bad("C20-EXACT", "api:amounts-never-through-floats", "", strings.Join(bad, "; ")+": amounts of 2^53 maxwell and more lose their low digits, so the reported value is not the exact one and parses back to a different amount")
